@@ -757,6 +757,19 @@ def rule_r4(chk, prog):
                       'by "not is_defined_fun": replacing a term by a defined '
                       'function symbol and inlining it again is a 2-cycle',
                       loc=m.loc(e), nontrivial=True)
+            # unit propagation: not (A and B) with A known true gives not B
+            for _round in range(2):
+                for (t, p_) in list(facts):
+                    if p_:
+                        continue
+                    e_ = parse_expr(t)
+                    if isinstance(e_, ast.BoolOp) and isinstance(
+                            e_.op, ast.And):
+                        unk = [c_ for c_ in e_.values
+                               if (unparse(c_), True) not in facts]
+                        if len(unk) == 1:
+                            for (x_, q_) in decompose(unk[0], False):
+                                facts.add((unparse(x_), q_))
             leaf = any(t in ('is_leaf(node)', 'node.is_leaf()') and p_
                        for (t, p_) in facts)
             if not leaf:
